@@ -345,7 +345,11 @@ theorem flushFinal_ne_fuel (st : RSt) : flushFinal st ≠ .error .fuel := by
 
 theorem parseCounts_ne_fuel (s : Str) : parseCounts s ≠ .error .fuel := by
   unfold parseCounts
-  split <;> simp
+  split
+  · simp
+  · simp
+  · split <;> simp
+  · split <;> simp
 
 theorem atomRec_ne_fuel (s : Str) : atomRec s ≠ .error .fuel := by
   unfold atomRec
